@@ -16,8 +16,8 @@ impl Conjunction for NonZeroUsize {
     type Output = Self;
 
     fn conjunction(self, rhs: Self) -> Self::Output {
-        self.checked_add(rhs.into())
-            .expect("overflow determining conjunction of unsigned word")
+        // Saturate rather than overflow: bounds specified in expressions may be arbitrarily large.
+        self.saturating_add(rhs.into())
     }
 }
 
@@ -25,8 +25,7 @@ impl Conjunction for usize {
     type Output = Self;
 
     fn conjunction(self, rhs: Self) -> Self::Output {
-        self.checked_add(rhs)
-            .expect("overflow determining conjunction of unsigned word")
+        self.saturating_add(rhs)
     }
 }
 
@@ -46,8 +45,7 @@ impl Product for NonZeroUsize {
     type Output = Self;
 
     fn product(self, rhs: Self) -> Self::Output {
-        self.checked_mul(rhs)
-            .expect("overflow determining product of unsigned word")
+        self.saturating_mul(rhs)
     }
 }
 
@@ -55,8 +53,7 @@ impl Product for usize {
     type Output = Self;
 
     fn product(self, rhs: Self) -> Self::Output {
-        self.checked_mul(rhs)
-            .expect("overflow determining product of unsigned word")
+        self.saturating_mul(rhs)
     }
 }
 
